@@ -1,7 +1,7 @@
 (* Sequences of configurations on one module-level parser object: the registry is empty at the start of every
    read_config_string, hence the verdict on a configuration does not depend on the earlier ones. *)
 From Coq Require Import ZArith List Bool Arith Lia.
-From CV Require Import C09.ParseModel C09.ParseProofs C09.NestedProofs.
+From CV Require Import C09.ParseModel C09.ParseProofs C09.NumProofs C09.NestedProofs.
 Import ListNotations.
 Local Open Scope Z_scope.
 
@@ -80,4 +80,88 @@ Lemma lookup_after_history : forall st pre conf key sp,
   last (snd (lookup_seq st (pre ++ [(conf, key, sp)]))) KL_notfound = key_lookup (fuel_of conf) conf key sp.
 Proof.
   intros st pre conf key sp. rewrite lookup_seq_pure, map_app. cbn [map fst snd]. apply last_last.
+Qed.
+
+(* ------------------------------------------------------------------ index files *)
+
+Lemma index_numbers_length : forall fuel l vs r, index_numbers fuel l = (vs, r) -> (length r <= length l)%nat.
+Proof.
+  induction fuel as [|f IH]; intros l vs r H.
+  - cbn in H. inversion H. lia.
+  - cbn [index_numbers] in H. pose proof (NumProofs.skip_space_length l) as HL.
+    destruct (skip_space l) as [|c t]; [inversion H; cbn; lia|].
+    destruct (extract_int (c :: t)) as [v rest|] eqn:E; [|inversion H; lia].
+    apply NumProofs.extract_int_progress in E.
+    destruct (0 <? v); [|inversion H; lia].
+    destruct (index_numbers f rest) as [vs' r'] eqn:R. apply IH in R. inversion H. subst. lia.
+Qed.
+
+(* reading an index file terminates within the fuel the model gives it, for every text *)
+Lemma index_loop_total : forall strict fuel l gs, (length l < fuel)%nat -> index_loop strict fuel l gs <> IndexOutOfFuel.
+Proof.
+  intros strict. induction fuel as [|f IH]; intros l gs H; [lia|].
+  cbn [index_loop].
+  destruct (expect_char 91 l) as [l1|] eqn:E1; [|discriminate]. apply expect_char_length in E1.
+  pose proof (NumProofs.skip_space_length l1) as HL.
+  destruct (extract_word (skip_space l1)) as [name l2|] eqn:E2; [|discriminate].
+  apply NumProofs.extract_word_progress in E2.
+  destruct (expect_char 93 l2) as [l3|] eqn:E3; [|discriminate]. apply expect_char_length in E3.
+  destruct (index_numbers (S (length l3)) l3) as [nums rest] eqn:EN. apply index_numbers_length in EN.
+  destruct (match assoc_find name gs with Some old => if int_list_eqb old nums then Some gs else None | None => Some (gs ++ [(name, nums)]) end) as [gs'|]; [|discriminate].
+  destruct (skip_space rest) as [|c t]; [discriminate|].
+  destruct (c =? 91); [apply IH; lia|destruct strict; discriminate].
+Qed.
+
+Lemma parse_index_total : forall strict text, parse_index strict text <> IndexOutOfFuel.
+Proof. intros strict text. unfold parse_index. apply index_loop_total. lia. Qed.
+
+(* the repaired reader accepts a subset of what the pinned one accepted, with the same groups ... *)
+Lemma index_strict_implies_pinned : forall fuel l gs gs',
+  index_loop true fuel l gs = IndexOk gs' -> index_loop false fuel l gs = IndexOk gs'.
+Proof.
+  induction fuel as [|f IH]; intros l gs gs' H; [discriminate|].
+  cbn [index_loop] in *.
+  destruct (expect_char 91 l) as [l1|]; [|discriminate].
+  destruct (extract_word (skip_space l1)) as [name l2|]; [|discriminate].
+  destruct (expect_char 93 l2) as [l3|]; [|discriminate].
+  destruct (index_numbers (S (length l3)) l3) as [nums rest].
+  destruct (match assoc_find name gs with Some old => if int_list_eqb old nums then Some gs else None | None => Some (gs ++ [(name, nums)]) end) as [gs2|]; [|discriminate].
+  destruct (skip_space rest) as [|c t]; [exact H|].
+  destruct (c =? 91); [apply IH; exact H|discriminate].
+Qed.
+
+(* ... and the pinned one silently dropped everything after the first text that is not a positive number:
+   "[ g ] 1 2 x 3" defined g = (1, 2) *)
+Lemma index_pinned_refuted :
+  exists text gs, parse_index false text = IndexOk gs /\ parse_index true text = IndexError.
+Proof. exists [91; 32; 103; 32; 93; 32; 49; 32; 50; 32; 120; 32; 51]. eexists. split; vm_compute; reflexivity. Qed.
+
+(* ------------------------------------------------------------------ parse_required and key_already_set *)
+
+(* a keyword looked up with parse_required in a text that does not contain it is an error exactly when no earlier call
+   on the same parser object has marked it (by reading a value text or by assigning the default); on a fresh object
+   it is always an error *)
+Lemma kv_required_missing : forall st ovr conf key,
+  ksv_found (key_string_values conf key) = false -> ksv_data (key_string_values conf key) = [] ->
+  ko_err (snd (kv_call st true ovr conf key)) = ksv_err (key_string_values conf key) || negb (kv_set st) /\
+  fst (kv_call st true ovr conf key) = st.
+Proof.
+  intros st ovr conf key Hf Hd. unfold kv_call. rewrite Hd, Hf. cbn. split; reflexivity.
+Qed.
+
+Lemma kv_required_missing_fresh : forall v ovr conf key,
+  ksv_found (key_string_values conf key) = false -> ksv_data (key_string_values conf key) = [] ->
+  ko_err (snd (kv_call {| kv_set := false; kv_val := v |} true ovr conf key)) = true.
+Proof.
+  intros v ovr conf key Hf Hd. destruct (kv_required_missing {| kv_set := false; kv_val := v |} ovr conf key Hf Hd) as [E _].
+  rewrite E. cbn. apply orb_true_r.
+Qed.
+
+(* without parse_required: the default is assigned (and the key marked) iff parse_override is given or the key was
+   not set before; otherwise the value is left as it is *)
+Lemma kv_default_rule : forall st ovr conf key,
+  ksv_found (key_string_values conf key) = false -> ksv_data (key_string_values conf key) = [] ->
+  ko_val (snd (kv_call st false ovr conf key)) = (if ovr || negb (kv_set st) then KvDefault else kv_val st).
+Proof.
+  intros st ovr conf key Hf Hd. unfold kv_call. rewrite Hd, Hf. cbn. destruct (ovr || negb (kv_set st)); reflexivity.
 Qed.
